@@ -293,10 +293,17 @@ def run(ctx):
             info = analyse_loop(prog, fn, h, loops[h], ss)
             table = {}
             details = {'roles': roles, 'reached_from': sorted('%s::%s' % x for x in sources)}
+            # a loop-carried variable is a record only if it can reach what the function returns (a shared descent helper
+            # may maintain a candidate that this caller never looks at)
+            used_ids = set()
+            for rv in b.ret_val.values():
+                for x in walk(rv):
+                    used_ids.add(x.id)
             for rel, r in info['rels'].items():
                 d = direction(prog, fn, r['nexts'], info['cursor']) if r['loops_back'] else '-'
-                rec = any(any(derives_from(x, info['cursor']) for x in vals) for vals in r['recs'].values())
-                rec_other = any(any(not derives_from(x, info['cursor']) for x in vals) for vals in r['recs'].values())
+                live_recs = {q: vals for q, vals in r['recs'].items() if q in used_ids}
+                rec = any(any(derives_from(x, info['cursor']) for x in vals) for vals in live_recs.values())
+                rec_other = any(any(not derives_from(x, info['cursor']) for x in vals) for vals in live_recs.values())
                 retcur = bool(r['rets']) and all(derives_from(x, info['cursor']) for x in r['rets'])
                 retother = bool(r['rets']) and not retcur
                 table[rel] = {'dir': d, 'record': rec, 'return_current': retcur, 'record_other': rec_other,
@@ -447,9 +454,22 @@ def check_frame(prog, fn, info, role, table):
             if v.kind == 'phi' and v.id in hp and v is not cursor:
                 inits = [strip(a) for a, p in zip(v.args, v.extra['preds']) if p not in body]
                 ok = all(i.kind == 'param' or prog.is_empty_ref(i) for i in inits)
+            # the candidate kept as an Option: `below.unwrap_or(default)` with below = None initially
+            if not ok and v.kind == 'call' and v.callee_name() in ('unwrap_or', 'unwrap_or_default') and v.args:
+                q = strip(v.args[0])
+                while q.kind == 'call' and q.callee_name() == 'or' and len(q.args) == 2 and is_none(strip(q.args[0])):
+                    q = strip(q.args[1])        # None.or(x) == x  (the exact hit did not happen on this path)
+                dflt = strip(v.args[1]) if len(v.args) > 1 else None
+                if q.kind == 'phi' and q.id in hp and q is not cursor and (dflt is None or dflt.kind == 'param'):
+                    inits = [strip(a) for a, p in zip(q.args, q.extra['preds']) if p not in body]
+                    ok = all(is_none(i) for i in inits)
             if not ok:
                 problems.append('%s: loop exit returns %s, expected the recorded result (initially the default / EMPTY_REF)' % (role, show(v, 3)))
     return problems
+
+
+def is_none(v):
+    return v is not None and v.kind == 'agg' and v.extra.get('variant') and v.extra['variant'].get('name') == 'None'
 
 
 def check_anchors(ctx, found):
